@@ -12,7 +12,7 @@
              table): it must be the same multiset
    Observation of the implementation: T [L terminated; T delivered ids]. *)
 From Coq Require Import List NArith Bool Arith.
-From AdltV Require Import Base.Obs Pipe.Kahn Pipe.Loss Pipe.Shared Pipe.Consumer.
+From AdltV Require Import Base.Obs Pipe.Kahn Pipe.Loss Pipe.Shared Pipe.Consumer Pipe.Incr.
 Import ListNotations.
 Open Scope N_scope.
 
@@ -230,18 +230,52 @@ Definition remote_model (c : remote_case) : otree :=
   let s := tick true (length evs) (tick true (length evs) s) in
   T [L (N.of_nat (length (c_got s))); T (map (fun r => T (map L r)) (c_view s))].
 
-Definition case_C13 := (pipe_case + (loss_case + (shared_case + remote_case)))%type.
+(* ---------------------------------------------------------------------------------------------------
+   Incremental followers of the lifecycle table (Pipe/Incr.v): the protocol of remote.rs process_file_context at library level.
+     events  the publication sequence of the REAL lifecycle stage run alone, reconstructed from the table as readers see it
+             inside every outflow call and after the stage returned: (0, refresh idx, [(lifecycle id (rank), [ecu; nr_msgs;
+             start; end])]) = the entries that changed, grouped by the lcs_w_refresh_idx they carry; (1, id, []) = the entry
+             disappeared; (2, j, []) = the j-th message handed to the outflow
+     pats    followers behind a rendezvous channel that look at the table after the sends marked 1 (and once at the end)
+     runs    (capacity, interleaving): followers behind real channels of that capacity, real threads
+   Observation: T [T per pattern; T per run] of the follower's table at the end, restricted to the lifecycles of the final
+   table, in the order of their ids: T [L id; L refresh idx; L ecu; L nr_msgs; L start; L end].
+   The model must find the freshness invariant on the events ([fresh_b]); by C13_incremental_consumer_final_table every
+   interleaving then ends with the final table, the seeded ones are executed. *)
+Definition incr_ev := (N * N * list (N * list N))%type.
+Definition incr_case := (list incr_ev * list (list N) * list (N * list N))%type.
+Definition incr_events (l : list incr_ev) : list (@iev N (list N)) :=
+  map (fun '(tag, a, ups) => match tag with 0 => IRefresh a ups | 1 => IDel a | _ => ISend a end) l.
+Definition entry_obs (e : @entry (list N)) : otree := T (L (e_id e) :: L (e_idx e) :: map L (e_info e)).
+Definition follower_obs (fin : @view (list N)) (s : @ist N (list N)) : otree :=
+  T (flat_map (fun id => match lookup id (i_tbl s) with Some e => [entry_obs e] | None => [] end) (nsort (ids fin))).
+Definition incr_model (c : incr_case) : otree :=
+  let '(evl, pats, runs) := c in
+  let evs := incr_events evl in
+  let fin := final_view [] evs in
+  let n := length evs in
+  T [T (map (fun pat => follower_obs fin (ipoll (iscript (n + 1) 0 (map (fun b => negb (b =? 0)) pat) (iinit evs)))) pats);
+     T (map (fun '(cap, sched) =>
+               let cp := N.to_nat cap in
+               follower_obs fin (ipoll (ifinish (2 * n + 2) cp (irun cp (map N.to_nat sched) (iinit evs))))) runs)].
+Definition incr_agree (c : incr_case) (o : otree) : bool :=
+  let '(evl, pats, runs) := c in
+  fresh_b 0 (incr_events evl) && otree_eqb (incr_model c) o.
+
+Definition case_C13 := (pipe_case + (loss_case + (shared_case + (remote_case + incr_case))))%type.
 Definition run_C13 (c : case_C13) : otree :=
   match c with
   | inl p => run_pipe p
   | inr (inl l) => T (loss_model l)
   | inr (inr (inl sh)) => T (shared_model sh)
-  | inr (inr (inr r)) => remote_model r
+  | inr (inr (inr (inl r))) => remote_model r
+  | inr (inr (inr (inr i))) => incr_model i
   end.
 Definition agree_C13 (c : case_C13) (o : otree) : bool :=
   match c with
   | inl p => agree_pipe p o
   | inr (inl l) => loss_selfcheck l && otree_eqb (T (loss_model l)) o
   | inr (inr (inl sh)) => pbs_b [] (shared_events sh) && otree_eqb (T (shared_model sh)) o
-  | inr (inr (inr r)) => otree_eqb (remote_model r) o
+  | inr (inr (inr (inl r))) => otree_eqb (remote_model r) o
+  | inr (inr (inr (inr i))) => incr_agree i o
   end.
